@@ -8,7 +8,7 @@ T2 == TriBox(6, -3, 5, 3, 2, 4)
 T3 == TriBox(3, 0, 4, 0, -2, 3)
 \* quick: the three kinds, two sizes of each periodic kind, auto + a few explicit types
 MCCallsQ == {C(ZeroBox, "auto"), C(O1, "auto"), C(O2, "auto"), C(T1, "auto"), C(T2, "auto"),
-             C(O1, "tric"), C(T2, "open"), C(O2, "ortho")}
+             C(O1, "tric"), C(T2, "open"), C(O2, "ortho"), C(T1, "ortho"), C(ZeroBox, "cleanup")}
 MCCallsAll == MCCallsQ \cup {C(T3, "auto"), C(T1, "tric"), C(ZeroBox, "open"), C(O1, "open"), C(O2, "tric")}
 MCProbes == {<<1, 0, 0>>, <<3, 2, -1>>, <<-5, 4, 7>>, <<2, 2, 2>>, <<0, -3, 1>>}
 ====
